@@ -95,10 +95,6 @@ def handle (op : String) (args : List String) : String :=
       | some cs => "|".intercalate ((md.findHistory proj (memIsFile fs) cs).map findWire)
       | none => "bad-args"
     | _, _, _, _ => "bad-args"
-  | "HA", [p] =>
-    match path? p with
-    | some p => toString (HA p)
-    | none => "bad-args"
   | "cands", [p, folder] =>
     match path? p, hexToChars? folder with
     | some p, some folder => ";".intercalate ((findRequirePaths p folder).map pathWire)
